@@ -3,7 +3,8 @@ from .rules import kernel, incr, rot, sched, meas, integrator, kal, purity, diff
 
 PROPS = {
     'C01': dict(
-        rules=[kernel.row_rec, kernel.sib_grav, kernel.ker_consist, kernel.ker_skew,
+        rules=[geo.geo_curv, geo.parity, kernel.row_rec, kernel.sib_grav, kernel.ker_consist,
+               kernel.ker_skew,
                incr.cs_rules, incr.cs_exact, rot.rot_series, rot.rot_exp],
         decided=['compiled gravity copy equals earth.gravity',
                  'one-step map first-order consistent with the navigation equations built '
@@ -108,13 +109,15 @@ PROPS = {
                  'sd in both filters)', 'position / NED-velocity models return 2 rows'],
         undecided=['nothing further: the statement is structural']),
     'C07': dict(
-        rules=[kal.kal_rules],
+        rules=[kal.kal_rules, kal.use_after_overwrite],
         decided=['gain == P H^T S^-1 with S == H P H^T + R and state update == x + K (z - H x) '
                  '(non-commutative normal form, all inputs)',
                  'covariance is the Joseph form, each summand a congruence of P or R (symmetric '
                  'PSD by construction)',
                  'innovation is the residual whitened by the lower factor of that same S; one '
-                 'triangle used consistently'],
+                 'triangle used consistently',
+                 'no array is read after it was handed over with an overwrite flag (layout-'
+                 'dependent corruption for single-row / single-column shapes)'],
         undecided=['floating-point equality with the information form', 'order independence '
                    'and "never larger than the prior" as numerical facts (they follow '
                    'algebraically)', 'inputs not modified: decided under C19 (PUR-ARG)']),
@@ -203,8 +206,8 @@ PROPS = {
         undecided=['size of the second-order residual (a Taylor remainder)',
                    'behaviour at the pitch singularity']),
     'C04': dict(
-        rules=[errmodel.em_2d, errmodel.em_units, errmodel.em_frame, errmodel.em_gravgrad,
-               kernel.ker_consist, kernel.sib_grav],
+        rules=[geo.geo_curv, geo.parity, errmodel.em_2d, errmodel.em_units, errmodel.em_frame,
+               errmodel.em_gravgrad, kernel.ker_consist, kernel.sib_grav],
         decided=['dimensional homogeneity of every entry of F, B_gyro, B_accel, the output '
                  'transform and the Jacobians', 'body-frame covariance of the coupling matrices, F '
                  'independent of attitude', '7-state model is exactly S F E / S B of the 9-state '
